@@ -564,6 +564,35 @@ func init() {
 				conc = append(conc, byte(t.Uint64()))
 			}
 			var out array
+			if ok && e.Concrete && !e.IntMode {
+				// concrete replay of a path on which this hash was an uninterpreted function of
+				// symbolic bytes: the counterexample carries the function's value for these arguments
+				var sb strings.Builder
+				sb.WriteString("uf:keccak256")
+				for range all {
+					sb.WriteString("_b8")
+				}
+				sb.WriteString("(")
+				for i, b := range all {
+					if i > 0 {
+						sb.WriteString(",")
+					}
+					sb.WriteString("0x" + b.(*Term).c.Text(16))
+				}
+				sb.WriteString(")")
+				if v, found := e.ModelIn[sb.String()]; found {
+					r := e.tt.BV(256, v)
+					out = make(array, 32)
+					for i := 0; i < 32; i++ {
+						hi := 255 - 8*i
+						out[i] = e.tt.Extract(hi, hi-7, r)
+					}
+					if asHash {
+						return out
+					}
+					return []Value(out)
+				}
+			}
 			if ok {
 				h := keccak256(conc)
 				out = make(array, 32)
